@@ -38,6 +38,8 @@ func runC01(c *Ctx) {
 	c08Literals(c, "C01.13")
 	ruleNoDeadStores(c, "C01.14", "storage")
 	ruleNoLastIterationWins(c, "C01.18", "storage", "engine")
+	ruleInsertByName(c, "C01.19")
+	ruleStripQuotes(c, "C01.20")
 	c.Rule("C01.15", "rows read back are the rows stored: the row codec is symmetric per column type and its length prefixes are byte lengths (C08.4)")
 	checkCodecPair(c, "C01.15", "storage.(*Tuple).Encode", "storage.(*Tuple).Decode")
 	ruleFlushLoopComplete(c, "C01.16")
@@ -383,50 +385,84 @@ func c01RootRelocation(c *Ctx, rule string) {
 			key := f.Name + "|root-change-handled#" + itoa(i+1)
 			body := f.EnclosingBody(ins)
 			g := body.Graph()
-			// find `if <changed> { ... updatePageTable / setPageTableRoot ... }`
-			var handlers []*ast.IfStmt
-			inspectBody(body.Node, func(x ast.Node) bool {
-				ifs, ok := x.(*ast.IfStmt)
-				if !ok {
+			// handler calls: the catalog update (updatePageTable) or the header's page-table root, directly or through a helper
+			isHandler := func(nn ast.Node) bool {
+				if len(f.Calls(nn, false, "storage.RelationService.updatePageTable", "storage.*.setPageTableRoot")) > 0 {
 					return true
 				}
-				if len(f.Calls(ifs.Body, false, "storage.RelationService.updatePageTable", "storage.*.setPageTableRoot")) == 0 {
-					// a helper that reaches the catalog update counts (wrapper one or more calls deep)
-					via := false
-					for _, cs := range w.CG().Sites[f] {
-						if cs.Call.Pos() < ifs.Body.Pos() || cs.Call.End() > ifs.Body.End() {
-							continue
-						}
-						for t := range w.CG().Reach(cs.Targets...) {
-							if t.Name == "storage.(*RelationService).updatePageTable" || strings.HasSuffix(t.Name, ").setPageTableRoot") {
-								via = true
-							}
+				for _, cs := range w.CG().Sites[f] {
+					if cs.Call.Pos() < nn.Pos() || cs.Call.End() > nn.End() || cs.Call == ins {
+						continue
+					}
+					for t := range w.CG().Reach(cs.Targets...) {
+						if t.Name == "storage.(*RelationService).updatePageTable" || strings.HasSuffix(t.Name, ").setPageTableRoot") {
+							return true
 						}
 					}
-					if !via {
-						return true
+				}
+				return false
+			}
+			// an edge on which the root is known not to have moved: `a.getFileOffset() == b.getFileOffset()` true,
+			// `!=` false, or a boolean local defined by such a comparison
+			var unchanged func(cond ast.Expr, val bool) bool
+			unchanged = func(cond ast.Expr, val bool) bool {
+				cond = ast.Unparen(cond)
+				if u, ok := cond.(*ast.UnaryExpr); ok && u.Op == token.NOT {
+					return unchanged(u.X, !val)
+				}
+				if id, ok := cond.(*ast.Ident); ok {
+					for _, as := range f.assignsTo(body.Node, f.ObjOf(id)) {
+						if len(as.Rhs) == 1 && len(as.Lhs) == 1 {
+							return unchanged(as.Rhs[0], val)
+						}
 					}
+					return false
 				}
-				if rootChangedCond(f, body.Node, ifs.Cond) {
-					handlers = append(handlers, ifs)
+				be, ok := cond.(*ast.BinaryExpr)
+				if !ok || (be.Op != token.NEQ && be.Op != token.EQL) {
+					return false
 				}
-				return true
-			})
-			if len(handlers) == 0 {
+				l, lok := ast.Unparen(be.X).(*ast.CallExpr)
+				r, rok := ast.Unparen(be.Y).(*ast.CallExpr)
+				if !(lok && rok && f.CallIs(l, "storage.btreeNode.getFileOffset") && f.CallIs(r, "storage.btreeNode.getFileOffset")) {
+					return false
+				}
+				return (be.Op == token.EQL) == val
+			}
+			tests := 0
+			for _, b := range g.c.Blocks {
+				if !g.Reachable(b) || len(b.Succs) != 2 {
+					continue
+				}
+				if info, ok := g.EdgeInfo(b, 0); ok && !info.Case && (unchanged(info.Cond, true) || unchanged(info.Cond, false)) {
+					tests++
+				}
+			}
+			if tests == 0 {
 				c.Fail(rule, key, ins.Pos(), "%s inserts into a tree but never checks whether the root moved: after a root split the catalog keeps pointing at the old root (now a left leaf) and the rows in the other pages vanish", f.Name)
 				continue
 			}
 			loc, _ := g.Locate(ins)
-			miss, _ := g.Forward(&loc, g.SuccessEdges, func(nn ast.Node, at Loc) Verdict {
-				for _, h := range handlers {
-					if nn == ast.Node(h.Cond) || (nn.Pos() <= h.Cond.Pos() && h.Cond.End() <= nn.End()) {
-						return Cut
-					}
+			edge := func(b *cfg.Block, si int) bool {
+				if !g.SuccessEdges(b, si) {
+					return false
+				}
+				if info, ok := g.EdgeInfo(b, si); ok && !info.Case && unchanged(info.Cond, info.Val) {
+					return false // the root did not move: nothing to record
+				}
+				return true
+			}
+			miss, _ := g.Forward(&loc, edge, func(nn ast.Node, at Loc) Verdict {
+				if _, isCond := nn.(ast.Expr); !isCond && isHandler(nn) {
+					return Cut
 				}
 				if nn.Pos() <= ins.Pos() && ins.End() <= nn.End() {
 					return Hit
 				}
 				if r, ok := nn.(*ast.ReturnStmt); ok {
+					if isHandler(nn) {
+						return Cut
+					}
 					if g.ReturnMayBeNil(r) {
 						return Hit
 					}
@@ -435,9 +471,9 @@ func c01RootRelocation(c *Ctx, rule string) {
 				return Go
 			}, func(b *cfg.Block) Verdict { return Hit })
 			if miss {
-				c.Fail(rule, key, ins.Pos(), "a success path from the insert reaches a return (or the next insert) without the root-changed test")
+				c.Fail(rule, key, ins.Pos(), "a success path from the insert reaches a return (or the next insert) on which the root may have moved and neither the catalog nor the page-table root is updated")
 			} else {
-				c.OK(rule, key, ins.Pos(), 2, "root-changed test with catalog update follows the insert on every success path")
+				c.OK(rule, key, ins.Pos(), 2, "every success path after the insert either knows the root did not move or records the new root")
 			}
 		}
 		// WALBatch flow inside storage
@@ -697,6 +733,33 @@ func c11MarkDirty(c *Ctx, rule string) {
 			}
 			return true
 		})
+		// page variables that name the same page: `parent = root` after the new root was built under another name
+		alias := map[types.Object]types.Object{}
+		var find func(o types.Object) types.Object
+		find = func(o types.Object) types.Object {
+			if p, ok := alias[o]; ok && p != o {
+				r := find(p)
+				alias[o] = r
+				return r
+			}
+			return o
+		}
+		inspectBody(f.Decl.Body, func(x ast.Node) bool {
+			if as, ok := x.(*ast.AssignStmt); ok && len(as.Lhs) == len(as.Rhs) {
+				for i := range as.Lhs {
+					l, ok1 := ast.Unparen(as.Lhs[i]).(*ast.Ident)
+					r, ok2 := ast.Unparen(as.Rhs[i]).(*ast.Ident)
+					if ok1 && ok2 && l.Name != "_" {
+						if t := f.TypeOf(r); t != nil && namedTypeIs(t, "storage", "btreeNode") {
+							if lo, ro := f.ObjOf(l), f.ObjOf(r); lo != nil && ro != nil {
+								alias[find(lo)] = find(ro)
+							}
+						}
+					}
+				}
+			}
+			return true
+		})
 		var objs []types.Object
 		for o := range changed {
 			objs = append(objs, o)
@@ -753,7 +816,7 @@ func c11MarkDirty(c *Ctx, rule string) {
 				}
 				miss, _ := g.Forward(&loc, edge, func(nn ast.Node, at Loc) Verdict {
 					for _, d := range f.Calls(nn, false, "storage.btreeNode.markDirty") {
-						if id, ok := ast.Unparen(d.Fun.(*ast.SelectorExpr).X).(*ast.Ident); ok && f.ObjOf(id) == o {
+						if id, ok := ast.Unparen(d.Fun.(*ast.SelectorExpr).X).(*ast.Ident); ok && (f.ObjOf(id) == o || find(f.ObjOf(id)) == find(o)) {
 							return Cut
 						}
 					}
